@@ -14,7 +14,7 @@ import (
 // One step from an arbitrary state, hence the sums equal the number of
 // results for histories of any length.
 //
-//verif:harness param.n=1..6 thorough.param.n=1..12 unwind=16
+//verif:harness param.n=1..6,9,16 thorough.param.n=1..12,16,20 unwind=32
 func verif_harness_C12_add() {
 	n := verif_param("n")
 	bs := make(Buckets, n)
@@ -161,6 +161,8 @@ func verif_harness_C12_render() {
 		bs[i] = time.Duration(i) * time.Millisecond
 	}
 	h := &Histogram{Buckets: bs}
+	// as the report command does: the reporter exists before the first result
+	textReporter := NewHistogramReporter(h)
 	for a := 0; a < adds; a++ {
 		h.Add(&Result{Latency: time.Duration(verif_choose("lat", n)) * time.Millisecond})
 	}
@@ -210,7 +212,7 @@ func verif_harness_C12_render() {
 	// text
 	calls = nil
 	var buf bytes.Buffer
-	err = NewHistogramReporter(h)(&buf)
+	err = textReporter(&buf)
 	verif_assert(err == nil, "C12.render.text-no-error")
 	if verif_is_symbolic_run() {
 		verif_assert(len(calls) == n+1, "C12.render.text-one-row-per-bucket")
@@ -227,6 +229,16 @@ func verif_harness_C12_render() {
 			verif_assert(ok, "C12.render.text-row-is-bucket-and-count")
 		}
 	} else {
-		verif_assert(strings.Count(buf.String(), "\n") == n+1, "C12.render.text-one-row-per-bucket")
+		lines := strings.Split(strings.TrimRight(buf.String(), "\n"), "\n")
+		verif_assert(len(lines) == n+1, "C12.render.text-one-row-per-bucket")
+		for i := 1; i <= n && i < len(lines); i++ {
+			found := false
+			for _, f := range strings.Fields(lines[i]) {
+				if f == fmt.Sprint(counts[i-1]) {
+					found = true
+				}
+			}
+			verif_assert(found, "C12.render.text-row-is-bucket-and-count")
+		}
 	}
 }
